@@ -203,7 +203,7 @@ var Bases1 = []string{"", "", "", "backup.part1", "x.par", "my.params", "a b"}
 var names1 = []string{"a.dat", "repl\uFFFDchar.txt", "b file.bin", "ünïcode.txt", "日本語ファイル.bin", "emoji-😀-name", "𝔘𝔫𝔦.𝔡𝔞𝔱", "UPPER.DAT", "k.k.k", "Ωmega", "x (1).y", "тест.док", "g",
 	// a leading U+FEFF (a legal file-name character, not a byte order mark), and non-BMP characters whose surrogate pair
 	// sits at UTF-16 code units 63/64 and 127/128 of a long name
-	"x一.txt", "a☀b", "aux.c", "nul", "Com7.log", "...", "a\ue000b.dat", strings.Repeat("w", 230) + ".txt", "\uFEFFbom-first.txt", strings.Repeat("n", 63) + "😀.bin", strings.Repeat("m", 127) + "𝔘x"}
+	"x一.txt", "a☀b", "aux.c", "nul", "Com7.log", "...", "..draft.bin", "\U00100000x", "p\U0010FFFF.bin", "a\ue000b.dat", strings.Repeat("w", 230) + ".txt", "\uFEFFbom-first.txt", strings.Repeat("n", 63) + "😀.bin", strings.Repeat("m", 127) + "𝔘x"}
 
 // GenFiles1 draws a PAR1 file set (empty files allowed next to non-empty ones).
 func GenFiles1(t *rapid.T, maxFiles, maxBytes int) []FileSpec {
